@@ -141,25 +141,8 @@ func (a *alignment) aligned(x, y ssa.Value) bool {
 	return a.find(kx) == a.find(ky)
 }
 
-// loopSliceOf: for an induction value idx of a `range S` loop, returns S.
-func loopSliceOf(idx ssa.Value) ssa.Value {
-	bo, ok := idx.(*ssa.BinOp)
-	if !ok {
-		return nil
-	}
-	for _, r := range *bo.Referrers() {
-		cmp, ok := r.(*ssa.BinOp)
-		if !ok || cmp.Op != token.LSS || cmp.X != idx {
-			continue
-		}
-		if call, ok := cmp.Y.(*ssa.Call); ok {
-			if b, ok := call.Call.Value.(*ssa.Builtin); ok && b.Name() == "len" {
-				return call.Call.Args[0]
-			}
-		}
-	}
-	return nil
-}
+// loopSliceOf: for an induction value idx of a loop over S, returns S.
+func loopSliceOf(idx ssa.Value) ssa.Value { return an.LoopSliceOf(idx) }
 
 // infer applies the axioms and inference rules.
 func (a *alignment) infer(pairs [][2]string) {
@@ -593,6 +576,11 @@ func c01rest(c *an.Ctx) {
 			S := loopSliceOf(ia.Index)
 			if S == nil {
 				return
+			}
+			if mi, ok := st.Val.(*ssa.MakeInterface); ok {
+				if _, isConst := mi.X.(*ssa.Const); isConst {
+					return // the "no return value" filler (true for every position), not a batch result
+				}
 			}
 			o.Site(i)
 			found = true
